@@ -75,6 +75,20 @@ func C15(tier string) int {
 	prefixes += mprogs
 	ops += mprogs * int64(ml)
 	desc = append(desc, fmt.Sprintf("cachemulti(2 substores, nesting<=3):L=%d:%d programs", ml, mprogs))
+	// ---- foreign writes between a wrapper's reads and its Write ----
+	fprogs, fcoll := exploreC15foreign(func(p c15foreignProg, what string) {
+		mu.Lock()
+		defer mu.Unlock()
+		kind := "parent-content"
+		if !strings.HasPrefix(what, "final: parent holds") {
+			kind = strings.Fields(what)[0]
+		}
+		run.Report("C15|foreign-write|"+kind, fmt.Sprintf("program %s: %s", p, what), p)
+	})
+	programs += fprogs
+	prefixes += fprogs
+	ops += fprogs * 6
+	desc = append(desc, fmt.Sprintf("foreign writes between reads and Write: %d programs (%d in which a key the wrapper had read is changed in the parent)", fprogs, fcoll))
 	var names []string
 	for _, o := range alpha {
 		names = append(names, o.String())
